@@ -29,6 +29,9 @@ class Check(ParCheck):
             ('onceord', once_ord, [[(0, 0), (1, 0)], [(0, 0)]]),
             ('multi', multi, [[(1, 0), (1, 0)], [(1, 0)]]),
             ('once1', once_un, [[(1, 0)], [(5, 0)]]),
+            # a value configured for repeated use with the count one is still cloned per call: a surplus call is answered (and reported at teardown), not refused
+            ('multin1', term(1, 'some', Pat(mask=255, chain=[seg('ret7', 'n1')])), [[(1, 0), (1, 0)]]),
+            ('multin1x2', term(1, 'some', Pat(mask=255, chain=[seg('ret7', 'n1')])), [[(1, 0)], [(1, 0)]]),
             # a later pattern of the same method that would also accept the call does not take over once the single-use value is gone
             ('once2ov', tup([once_un, term(1, 'some', Pat(mask=255, chain=[seg('ret8', 'al0')]))]), [[(1, 0)], [(1, 0)]]),
             ('once2ovseq', tup([once_un, term(1, 'each', Pat(mask=255, chain=[seg('ret8', 'al0')]))]), [[(1, 0), (1, 0), (1, 0)]]),
@@ -142,6 +145,8 @@ class Check(ParCheck):
             others = [o for o in flat if o not in ('ret:7', 'ret:9')]
             if any(not o.startswith('err:CannotReturnValueMoreThanOnce') for o in others) or len(others) != len(flat) - 1:
                 return f"a single-use value must go to exactly one request and every other request must panic (CannotReturnValueMoreThanOnce): {flat}"
+        if name.startswith('multin1') and any(o != 'ret:7' for o in flat):
+            return f"a value configured for repeated use (returns(v).n_times(1)) was not cloned for every caller: {flat}"
         if name.startswith('multial') and any(o != 'ret:7' for o in flat):
             return f"a value configured for repeated use (returns(v).at_least_times(1)) was not handed to every caller: {flat}"
         if name.startswith('multieach') and sorted(flat) != sorted(['ret:7'] + ['ret:8'] * (len(flat) - 1)):
